@@ -764,7 +764,7 @@ void c03Random(Ctx& c, long idx)
 constexpr long kC03DetLengths = 60;  // length indices per class
 long c03Count(Ctx& c)
 {
-    return kC03DetLengths * CL_COUNT + (c.thorough() ? 525000 : 7000);
+    return kC03DetLengths * CL_COUNT + (c.thorough() ? 2100000 : 7000);
 }
 void c03Run(Ctx& c, long idx)
 {
